@@ -1,6 +1,7 @@
 package main
 
 import (
+	"go/token"
 	"go/types"
 
 	"golang.org/x/tools/go/ssa"
@@ -122,6 +123,70 @@ func init() {
 		}
 		in["github.com/oasisprotocol/oasis-core/go/oasis-node/cmd/common/flags.DebugDontBlameOasis"] = func(w *Worker, fr *frame, fn *ssa.Function, args []value) value {
 			return false
+		}
+	})
+}
+
+// math/bits kernels on symbolic operands (the library versions index lookup tables).
+func init() {
+	moreRegs = append(moreRegs, func(eng *Engine) {
+		in := eng.intrinsics
+		lenOf := func(w *Worker, v value, bw int) value {
+			switch x := v.(type) {
+			case uint64:
+				n := 0
+				for x != 0 {
+					n++
+					x >>= 1
+				}
+				return uint64(n)
+			case *Term:
+				acc := w.tc.BVConst(64, 0)
+				for i := 0; i < bw; i++ {
+					ge := w.tc.BvCmp(OBvUle, w.tc.BVConst(bw, uint64(1)<<uint(i)), x)
+					acc = w.tc.Ite(ge, w.tc.BVConst(64, uint64(i+1)), acc)
+				}
+				return simp(acc)
+			}
+			panic("bits.Len operand")
+		}
+		tz := func(w *Worker, v value, bw int) value {
+			switch x := v.(type) {
+			case uint64:
+				if x == 0 {
+					return uint64(bw)
+				}
+				n := 0
+				for x&1 == 0 {
+					n++
+					x >>= 1
+				}
+				return uint64(n)
+			case *Term:
+				acc := w.tc.BVConst(64, uint64(bw))
+				for i := bw - 1; i >= 0; i-- {
+					bit := w.tc.Eq(w.tc.Extract(x, i, i), w.tc.BVConst(1, 1))
+					acc = w.tc.Ite(bit, w.tc.BVConst(64, uint64(i)), acc)
+				}
+				return simp(acc)
+			}
+			panic("bits.TrailingZeros operand")
+		}
+		for _, sfx := range []struct {
+			name string
+			bw   int
+		}{{"8", 8}, {"16", 16}, {"32", 32}, {"64", 64}, {"", 64}} {
+			bw := sfx.bw
+			in["math/bits.Len"+sfx.name] = func(w *Worker, fr *frame, fn *ssa.Function, args []value) value {
+				return lenOf(w, args[0], bw)
+			}
+			in["math/bits.LeadingZeros"+sfx.name] = func(w *Worker, fr *frame, fn *ssa.Function, args []value) value {
+				l := lenOf(w, args[0], bw)
+				return w.intBinop(token.SUB, 64, true, types.Typ[types.Int], uint64(bw), l)
+			}
+			in["math/bits.TrailingZeros"+sfx.name] = func(w *Worker, fr *frame, fn *ssa.Function, args []value) value {
+				return tz(w, args[0], bw)
+			}
 		}
 	})
 }
